@@ -38,7 +38,7 @@ def hsteps(ctx, f, x, n, prec, **options):
         ctx.prec = workprec
         h = options.get('h')
         if h is None:
-            if options.get('relative'):
+            if options.get('relative') and x:
                 hextramag = int(ctx.mag(x))
             else:
                 hextramag = 0
@@ -191,6 +191,8 @@ def diff(ctx, f, x, n=1, **options):
         elif method == 'quad':
             ctx.prec += 10
             radius = ctx.convert(options.get('radius', 0.25))
+            # the integrand is scaled by 1/radius**n and the result by n!
+            ctx.prec += max(0, int(ctx.mag(ctx.factorial(n)) - n*ctx.mag(radius)))
             def g(t):
                 rei = radius*ctx.expj(t)
                 z = x + rei
